@@ -393,6 +393,10 @@ impl Scanner {
         assert_eq!(&chars[self.pos], &'\'');
 
         let mut rune = self.scan_rune(self.pos + 1)?;
+        if rune == ['\''] {
+            return Err(self.error_at(self.pos, "empty rune literal or unescaped ' in rune literal"));
+        }
+
         match self.chars.get(self.pos + 1 + rune.len()) {
             Some('\'') => {
                 let mut res = vec!['\''];
